@@ -35,13 +35,18 @@ def lookup(name, trait_name=None):
     if key in _lookup_cache:
         return _lookup_cache[key]
     h = EXACT.get(name)
-    if h is None and trait_name:
-        h = EXACT.get(trait_name)
     if h is None:
         for rx, f in _REGEX:
-            if rx.search(name) or (trait_name and rx.search(trait_name)):
+            if rx.search(name):
                 h = f
                 break
+    if h is None and trait_name and trait_name != name:
+        h = EXACT.get(trait_name)
+        if h is None:
+            for rx, f in _REGEX:
+                if rx.search(trait_name):
+                    h = f
+                    break
     _lookup_cache[key] = h
     return h
 
